@@ -3,6 +3,7 @@ package lua
 import (
 	"math"
 	"math/rand"
+	"strconv"
 )
 
 func OpenMath(L *LState) int {
@@ -130,8 +131,11 @@ func mathLog10(L *LState) int {
 	v := math.Log10(x)
 	// Go computes log10 as log2(x) * (ln 2 / ln 10), which misses the exact powers of ten
 	// (log10(1000) = 2.9999999999999996): where the nearest integer is the exact answer, it is the answer
-	if r := math.Round(v); r != v && math.Abs(r-v) < 1e-9 && r >= -300 && r <= 300 && math.Pow(10, r) == x {
-		v = r
+	if r := math.Round(v); r != v && math.Abs(r-v) < 1e-9 && r >= -323 && r <= 308 {
+		// (the power of ten itself is read as a numeral: math.Pow(10, r) is not exact either)
+		if p10, err := strconv.ParseFloat("1e"+strconv.Itoa(int(r)), 64); err == nil && p10 == x {
+			v = r
+		}
 	}
 	L.Push(LNumber(v))
 	return 1
